@@ -475,6 +475,9 @@ func (r *runner) verify(o op, file string, st, pre *state) {
 	}
 	if o.Kind == attAdd && pre != nil {
 		r.reconcileReadds(o, l, st, pre)
+		if r.tainted[stAtt] {
+			return
+		}
 	}
 	bad := false
 	for _, id := range l.AttDup {
@@ -617,11 +620,7 @@ func (r *runner) reconcileReadds(o op, l *listing, st, pre *state) {
 			continue
 		}
 		r.t.Count("att_readds", 1)
-		if b, ok := l.Raw[f.Name]; ok && bytes.Equal(b, f.Data) && (l.Att[f.Name].Desc == f.Desc) {
-			r.t.Count("att_readd_replaced", 1)
-			continue // replaced: the model already says so
-		}
-		// kept both?
+		// kept both? (checked first: old and new content may be equal)
 		var fresh []string
 		for id := range l.Att {
 			if _, inPre := pre.Att[id]; !inPre && !added[id] && strings.HasPrefix(id, f.Name) {
@@ -640,6 +639,10 @@ func (r *runner) reconcileReadds(o op, l *listing, st, pre *state) {
 			}
 		}
 		if found == "" {
+			if b, ok := l.Raw[f.Name]; ok && bytes.Equal(b, f.Data) && (l.Att[f.Name].Desc == f.Desc) {
+				r.t.Count("att_readd_replaced", 1)
+				continue // replaced: the model already says so
+			}
 			r.violate(stAtt, op{Kind: "att-readd"}, "new-bytes-lost", "", fmt.Sprintf("[%s] was attached again with new content; afterwards no attachment holds the new bytes (listed %q)", pdftext.Q(f.Name), sortedKeys(l.Att)))
 			continue
 		}
